@@ -128,7 +128,7 @@ fn c09_u31_decode_range() {
     core::mem::forget(t);
 }
 
-//@ c09_u31x8_decode {"desc":"the 8-lane feature-id decoder accepts 32 bytes iff every lane is a valid 31-bit value, reproduces them, and rejects every truncated input","bounds":"all 32-byte inputs; all truncation points 0..31","symbolic":"the 32 bytes, the truncation point","functions":["U31x8::decode","U31::decode","U31x8::encode"],"unwind":12,"unwindset":["memcmp:40"],"timeout":900}
+//@ c09_u31x8_decode {"desc":"the 8-lane feature-id decoder accepts 32 bytes iff every lane is a valid 31-bit value, reproduces them, and rejects every truncated input","bounds":"all 32-byte inputs; all truncation points 0..31","symbolic":"the 32 bytes, the truncation point","functions":["U31x8::decode","U31::decode","U31x8::encode"],"unwind":12,"unwindset":["memcmp:40","c09_u31x8_decode:40"],"timeout":900}
 #[cfg(kani)]
 #[kani::proof]
 fn c09_u31x8_decode() {
